@@ -10,6 +10,7 @@ import (
 	"fmt"
 	"math"
 	"os"
+	"time"
 )
 
 type vInput struct {
@@ -161,3 +162,17 @@ func vPanics(f func()) (p bool) {
 	f()
 	return false
 }
+
+// vInstant is the instant "day" days after the Unix epoch plus sec seconds
+// and nsec nanoseconds, expressed in a zone off seconds east of UTC.
+func vInstant(day, sec, nsec, off int) time.Time {
+	t := time.Unix(int64(day)*86400+int64(sec), int64(nsec))
+	if off == 0 {
+		return t.UTC()
+	}
+	return t.In(time.FixedZone("v", off))
+}
+
+// vHourMin and vDateStr print clock times and dates the way the UI stores them.
+func vHourMin(h, m int) string    { return fmt.Sprintf("%02d:%02d", h, m) }
+func vDateStr(y, m, d int) string { return fmt.Sprintf("%04d-%02d-%02d", y, m, d) }
